@@ -1,5 +1,7 @@
 import Clikit.Model.Run
 import Clikit.Lemmas.App
+import Clikit.Lemmas.RunListeners
+import Clikit.Props.C12
 /-!
 # C04 - a run always ends in a valid exit status and never leaks a handler failure
 
@@ -434,5 +436,270 @@ example : (runApp { debug := false, render := fun _ => false } cv app hs [S "nop
 
 end Demo
 end AppRun
+
+/-! ## The PRE_HANDLE listeners come from the event dispatcher (bridge to C12)
+
+`Run.run` takes the listeners as a list in calling order.  In the code they are registered with
+priorities on the configuration's `EventDispatcher` (together with listeners for other events) and
+`Command._do_handle` calls `dispatcher.dispatch(PRE_HANDLE, event)`.  `Model/RunListeners.lean` builds
+the list from a registration history BY RUNNING THE DISPATCHER MODEL of C12
+(`orderOf`, `runWithDispatcher`); the theorems below say that the two models call the same listeners
+in the same order, and what that order depends on.  Tied to the real run by the driver entry
+`c04.run_regs` (shuffled registrations with explicit, also equal, priorities and registrations for other
+events: status, handler calls and the listener call log are compared). -/
+section Listeners
+open Clikit.RunListeners
+
+/-- **The run model and the dispatcher model call the same listeners in the same order.**
+For every registration history: the dispatcher model (the code's priority dicts, sort and cache) runs the
+registrations followed by the `dispatch(PRE_HANDLE, event)` of `_do_handle` without a `KeyError`, and what it
+calls is C12's `callSeq` of the registration log (`Props.C12.dispatch_spec`: the prefix of `specOrder` for
+PRE_HANDLE through the first callable at which the walk ends).  The list handed to `Run.run` is `specOrder`
+itself, read back as registrations; the listeners `dispatchPre` consults on it (`dispatchPreLog` is
+`dispatchPre` plus a call log) are exactly the registrations the dispatcher calls, in that order - the prefix
+of the list through the first listener that stops propagation or raises - and the positions reported to the
+harness (`listenerCalls`) are theirs. -/
+theorem listeners_called_in_priority_order (regs : List Registration) :
+    ∃ s outs called stopped,
+      Dispatcher.run Dispatcher.init (opsOf regs ++ [.dispatch preHandle false]) = .ok (s, outs) ∧
+      outs[regs.length]? = some (.called called stopped) ∧
+      called = (Dispatcher.callSeq (regLog regs) preHandle false).map (fun r => r.l) ∧
+      called = calledOf regs ∧
+      orderOf regs =
+        ((Dispatcher.specOrder (regLog regs) preHandle).filterMap (fun r => back regs r.l)).map (fun r => r.l) ∧
+      (∀ h, (dispatchPreLog (orderOf regs) h).1 = dispatchPre (orderOf regs) h) ∧
+      (∀ h, (dispatchPreLog (orderOf regs) h).2 = consulted (orderOf regs)) ∧
+      consulted (orderOf regs) = (called.filterMap (back regs)).map (fun r => r.l) ∧
+      consulted (orderOf regs) = Dispatcher.takeThrough halts (orderOf regs) ∧
+      listenerCalls (.ok ()) regs = called.map (fun d => d.id) ∧
+      (∀ x ∈ Dispatcher.specOrder (regLog regs) preHandle,
+        ∃ r, back regs x.l = some r ∧ r.ev = preHandle ∧ r.prio = x.prio ∧ halts r.l = x.l.stops) := by
+  obtain ⟨s, outs, h1, h2⟩ := Props.C12.dispatch_spec (opsOf regs) preHandle false []
+  rw [logOf_opsOf] at h2
+  have hlen : (opsOf regs).length = regs.length := by simp [opsOf, regLog]
+  rw [hlen] at h2
+  refine ⟨s, outs, _, _, h1, h2, rfl, (calledOf_eq regs).symm, orderOf_spec regs,
+    fun h => dispatchPreLog_fst _ h, fun h => ?_, ?_, consulted_eq _, ?_, ?_⟩
+  · rw [dispatchPreLog_snd, consulted_eq]
+  · rw [consulted_orderOf, List.filterMap_map]
+    rfl
+  · simp only [listenerCalls, calledOf_eq]
+  · intro x hx
+    obtain ⟨hm, he⟩ := mem_specOrder_log hx
+    obtain ⟨r, hr, h3, h4, h5⟩ := back_of_mem hm
+    exact ⟨r, hr, h3.trans he, h4, h5⟩
+
+/-- **Priority decides, registration order only breaks ties.**  The registrations in calling order
+(`orderedRegs`, `orderOf` = their listeners) are the PRE_HANDLE registrations of the history, sorted by
+descending priority, and within every priority in registration order (a stable sort).  Hence two histories
+that register, for every priority, the same PRE_HANDLE listeners in the same relative order - any
+permutation that only moves registrations of DIFFERENT priorities past each other - give the same
+calling order and the same run. -/
+theorem registration_order_irrelevant_across_priorities (regs regs' : List Registration) :
+    (orderedRegs regs).Perm (regs.filter (fun r => r.ev == preHandle)) ∧
+    (orderedRegs regs).Pairwise (fun a b => a.prio ≥ b.prio) ∧
+    (∀ p, (orderedRegs regs).filter (fun r => r.prio == p) =
+          regs.filter (fun r => r.ev == preHandle && r.prio == p)) ∧
+    ((∀ p, regs.filter (fun r => r.ev == preHandle && r.prio == p) =
+           regs'.filter (fun r => r.ev == preHandle && r.prio == p)) →
+      orderOf regs = orderOf regs' ∧
+      ∀ debug resolved outcome render,
+        runWithDispatcher debug resolved regs outcome render =
+        runWithDispatcher debug resolved regs' outcome render) := by
+  refine ⟨orderedRegs_perm regs, orderedRegs_desc regs, orderedRegs_byKey regs, fun h => ?_⟩
+  have ho : orderOf regs = orderOf regs' := by rw [orderOf, orderOf, orderedRegs_congr regs regs' h]
+  exact ⟨ho, fun _ _ _ _ => by rw [runWithDispatcher, runWithDispatcher, ho]⟩
+
+/-- the elementary permutation: two neighbouring registrations of different priorities (or for different
+events) may be swapped -/
+theorem registration_swap_across_priorities (a b : List Registration) (x y : Registration)
+    (hne : x.prio ≠ y.prio ∨ x.ev ≠ y.ev) (debug : Bool) (resolved : Except Exc Unit) (outcome : Outcome)
+    (render : Exc → Bool) :
+    runWithDispatcher debug resolved (a ++ x :: y :: b) outcome render =
+    runWithDispatcher debug resolved (a ++ y :: x :: b) outcome render := by
+  refine ((registration_order_irrelevant_across_priorities _ _).2.2.2 ?_).2 debug resolved outcome render
+  intro p
+  simp only [List.filter_append, List.filter_cons]
+  by_cases hx : (x.ev == preHandle && x.prio == p) = true <;>
+    by_cases hy : (y.ev == preHandle && y.prio == p) = true <;> simp only [hx, hy, if_true]
+  · exfalso
+    simp only [Bool.and_eq_true, beq_iff_eq] at hx hy
+    rcases hne with h | h
+    · exact h (hx.2.trans hy.2.symm)
+    · exact h (hx.1.trans hy.1.symm)
+  all_goals simp_all
+
+/-- **Registrations for other events do not matter**: the run depends on the PRE_HANDLE registrations of the
+history only (what is registered for PRE_RESOLVE, CONFIG or any other name, and where in the history, is
+irrelevant to `Command.handle`). -/
+theorem other_events_irrelevant (regs regs' : List Registration)
+    (h : regs.filter (fun r => r.ev == preHandle) = regs'.filter (fun r => r.ev == preHandle)) :
+    orderOf regs = orderOf regs' ∧
+    orderOf regs = orderOf (regs.filter (fun r => r.ev == preHandle)) ∧
+    ∀ debug resolved outcome render,
+      runWithDispatcher debug resolved regs outcome render =
+      runWithDispatcher debug resolved regs' outcome render := by
+  have key : ∀ (r1 r2 : List Registration),
+      r1.filter (fun r => r.ev == preHandle) = r2.filter (fun r => r.ev == preHandle) →
+      ∀ p, r1.filter (fun r => r.ev == preHandle && r.prio == p) =
+           r2.filter (fun r => r.ev == preHandle && r.prio == p) := by
+    intro r1 r2 h12 p
+    have e : ∀ l : List Registration, l.filter (fun r => r.ev == preHandle && r.prio == p) =
+        (l.filter (fun r => r.ev == preHandle)).filter (fun r => r.prio == p) := by
+      intro l; rw [List.filter_filter]; congr 1; funext r; exact Bool.and_comm _ _
+    rw [e r1, e r2, h12]
+  have h1 := (registration_order_irrelevant_across_priorities regs regs').2.2.2 (key _ _ h)
+  have h2 := (registration_order_irrelevant_across_priorities regs (regs.filter (fun r => r.ev == preHandle))).2.2.2
+    (key _ _ (by rw [List.filter_filter]; simp))
+  exact ⟨h1.1, h2.1, h1.2⟩
+
+/-- **Marking the command handled does not stop the other listeners; the last status code wins.**
+What `dispatchPre` does (and `Command._do_handle` + `EventDispatcher._do_dispatch` do: the loop only looks at
+`event.is_propagation_stopped()`, `is_handled()` is read after the dispatch, `set_status_code` overwrites):
+* the listeners behind a listener that handles without stopping are consulted as if it were not there, with
+  its code on the event;
+* if no listener stops or raises, all are consulted;
+* the result is the exception of the listener that raised if the walk ended that way, otherwise the code set
+  by the LAST consulted listener that marked the command handled (none: the event is not handled);
+* once any consulted listener handled the command and none raised, the handler is not invoked. -/
+theorem handled_does_not_stop (ls : List Listener) (h : Option RetVal) :
+    (∀ pre c rest, ls = pre ++ .handled c false :: rest → (∀ x ∈ pre, halts x = false) →
+      consulted ls = pre ++ .handled c false :: consulted rest ∧
+      dispatchPre ls h = dispatchPre rest (some c)) ∧
+    ((∀ x ∈ ls, halts x = false) → consulted ls = ls ∧ dispatchPre ls h = .ok (lastHandled ls h)) ∧
+    (dispatchPre ls h = match (consulted ls).getLast? with
+      | some (.fail e) => .error e
+      | _ => .ok (lastHandled (consulted ls) h)) ∧
+    (∀ a c s b, consulted ls = a ++ .handled c s :: b → (∀ x ∈ b, isHandled x = false) →
+      lastHandled (consulted ls) h = some c) ∧
+    (∀ debug resolved outcome render, (∃ x ∈ consulted ls, isHandled x = true) →
+      (run debug resolved ls outcome render).handlerCalls = 0) := by
+  have hres := dispatchPre_eq ls h
+  rw [← consulted_eq] at hres
+  refine ⟨?_, ?_, hres, ?_, ?_⟩
+  · intro pre c rest hls hpre
+    subst hls
+    constructor
+    · rw [consulted_eq, consulted_eq, takeThrough_append_of_false _ _ _ hpre]
+      simp [Dispatcher.takeThrough, halts]
+    · rw [dispatchPre_eq, dispatchPre_eq rest (some c), takeThrough_append_of_false _ _ _ hpre]
+      have e : Dispatcher.takeThrough halts (Listener.handled c false :: rest) =
+          .handled c false :: Dispatcher.takeThrough halts rest := by simp [Dispatcher.takeThrough, halts]
+      rw [e, lastHandled_append]
+      cases hr : Dispatcher.takeThrough halts rest with
+      | nil => simp [lastHandled]
+      | cons u v =>
+        obtain ⟨z, hz⟩ : ∃ z, (u :: v).getLast? = some z := ⟨_, List.getLast?_eq_some_getLast (by simp)⟩
+        simp [lastHandled, List.getLast?_cons_cons, hz]
+  · intro hall
+    have hc : consulted ls = ls := by rw [consulted_eq, takeThrough_all_false _ _ hall]
+    refine ⟨hc, ?_⟩
+    rw [hres, hc]
+    cases hl : ls.getLast? with
+    | none => rfl
+    | some x =>
+      have hx := hall x (List.mem_of_getLast? hl)
+      cases x <;> simp_all [halts]
+  · intro a c s b hc hb
+    rw [hc, lastHandled_append]
+    simp only [lastHandled]
+    exact lastHandled_of_none_handled b (some c) hb
+  · intro debug resolved outcome render hx
+    have hle := (handler_once debug resolved ls outcome render).1
+    have hiff := (handler_once debug resolved ls outcome render).2
+    have hne : dispatchPre ls none ≠ .ok none := by
+      have hres0 := dispatchPre_eq ls none
+      rw [← consulted_eq] at hres0
+      rw [hres0]
+      have hs := lastHandled_isSome_of_mem (consulted ls) none (Or.inl hx)
+      split
+      · intro hcontra; cases hcontra
+      · intro hcontra
+        simp only [Except.ok.injEq] at hcontra
+        rw [hcontra] at hs
+        cases hs
+    have : (run debug resolved ls outcome render).handlerCalls ≠ 1 := fun h1 => hne (hiff.1 h1).2
+    omega
+
+/-! Non-vacuity of the bridge (concrete histories, evaluated through C12's specification order) -/
+def code3 : RetVal := { falsy := false, toInt := .ok 3 }
+def code5 : RetVal := { falsy := false, toInt := .ok 5 }
+/-- an event name that is not PRE_HANDLE -/
+def otherEvent : Nat := 2
+
+/-- `listeners_called_in_priority_order`: registered as (priority 1: pass), (9: handle 3, no stop),
+(9: stop), (5: handle 5): the run consults positions 1 and 2 only, the status is 3 -/
+example : listenerCalls (.ok ()) [⟨preHandle, 1, .pass⟩, ⟨preHandle, 9, .handled code3 false⟩,
+      ⟨preHandle, 9, .stopOnly⟩, ⟨preHandle, 5, .handled code5 false⟩] = [1, 2] ∧
+    (runWithDispatcher false (.ok ()) [⟨preHandle, 1, .pass⟩, ⟨preHandle, 9, .handled code3 false⟩,
+      ⟨preHandle, 9, .stopOnly⟩, ⟨preHandle, 5, .handled code5 false⟩] (.raise boom) (fun _ => true)).status
+      = some 3 := by
+  simp only [listenerCalls, calledOf_eq, runWithDispatcher, orderOf_spec]
+  decide
+
+/-- **equal priorities: registration order matters.**  Two listeners of the same priority that both mark the
+command handled without stopping: the LAST one's status wins, so swapping them changes the status
+(stability is observable) ... -/
+example :
+    (runWithDispatcher false (.ok ()) [⟨preHandle, 4, .handled code3 false⟩, ⟨preHandle, 4, .handled code5 false⟩]
+      (.ret vNone) (fun _ => true)).status = some 5 ∧
+    (runWithDispatcher false (.ok ()) [⟨preHandle, 4, .handled code5 false⟩, ⟨preHandle, 4, .handled code3 false⟩]
+      (.ret vNone) (fun _ => true)).status = some 3 := by
+  simp only [runWithDispatcher, orderOf_spec]
+  decide
+
+/-- ... while with different priorities the swap changes nothing (instance of the theorem; the value is 3:
+the listener of priority 2 runs last) -/
+example :
+    runWithDispatcher false (.ok ()) [⟨preHandle, 2, .handled code3 false⟩, ⟨preHandle, 7, .handled code5 false⟩]
+      (.ret vNone) (fun _ => true) =
+    runWithDispatcher false (.ok ()) [⟨preHandle, 7, .handled code5 false⟩, ⟨preHandle, 2, .handled code3 false⟩]
+      (.ret vNone) (fun _ => true) :=
+  registration_swap_across_priorities [] [] _ _ (Or.inl (by decide)) _ _ _ _
+example :
+    (runWithDispatcher false (.ok ()) [⟨preHandle, 2, .handled code3 false⟩, ⟨preHandle, 7, .handled code5 false⟩]
+      (.ret vNone) (fun _ => true)).status = some 3 := by
+  simp only [runWithDispatcher, orderOf_spec]
+  decide
+
+/-- `other_events_irrelevant`: a failing listener of top priority registered for ANOTHER event does not take
+part: the run is the one of the PRE_HANDLE registration alone (status 5, handler not invoked) -/
+example :
+    runWithDispatcher false (.ok ()) [⟨otherEvent, 99, .fail boom⟩, ⟨preHandle, 0, .handled code5 true⟩,
+      ⟨otherEvent, 0, .stopOnly⟩] (.raise boom) (fun _ => true) =
+    runWithDispatcher false (.ok ()) [⟨preHandle, 0, .handled code5 true⟩] (.raise boom) (fun _ => true) :=
+  (other_events_irrelevant _ _ (by simp [preHandle, otherEvent])).2.2 _ _ _ _
+example :
+    let r := runWithDispatcher false (.ok ()) [⟨otherEvent, 99, .fail boom⟩, ⟨preHandle, 0, .handled code5 true⟩,
+      ⟨otherEvent, 0, .stopOnly⟩] (.raise boom) (fun _ => true)
+    r.status = some 5 ∧ r.handlerCalls = 0 := by
+  simp only [runWithDispatcher, orderOf_spec]
+  decide
+
+/-- `handled_does_not_stop`: handled(3) without stop, then pass, then handled(5) without stop, then pass:
+all four are consulted, the status is the LAST code (5), the handler is not invoked; with the first one
+stopping, only it is consulted and the status is 3 -/
+example : consulted [.handled code3 false, .pass, .handled code5 false, .pass] =
+      [.handled code3 false, .pass, .handled code5 false, .pass] ∧
+    dispatchPre [.handled code3 false, .pass, .handled code5 false, .pass] none = .ok (some code5) :=
+  have h := (handled_does_not_stop [.handled code3 false, .pass, .handled code5 false, .pass] none).2.1
+    (by intro x hx; simp at hx; rcases hx with rfl | rfl | rfl | rfl <;> rfl)
+  ⟨h.1, h.2⟩
+example :
+    let r := run false (.ok ()) [.handled code3 false, .pass, .handled code5 false, .pass] (.raise boom) (fun _ => true)
+    r.status = some 5 ∧ r.handlerCalls = 0 := by decide
+example : (run false (.ok ()) [.handled code3 false, .pass, .handled code5 false, .pass] (.raise boom)
+    (fun _ => true)).handlerCalls = 0 :=
+  (handled_does_not_stop _ none).2.2.2.2 _ _ _ _ ⟨.handled code3 false, by simp [consulted, dispatchPreLog], rfl⟩
+example : let r := run false (.ok ()) [.handled code3 true, .pass, .handled code5 false] (.raise boom) (fun _ => true)
+    r.status = some 3 ∧ r.handlerCalls = 0 := by decide
+
+/-- the one registration of `DefaultApplicationConfig` (`print_version`, priority 0): the list `runApp` passes
+to `Run.run` is the dispatcher's order of that history -/
+example (l : Listener) : orderOf [⟨preHandle, 0, l⟩] = [l] := by
+  rw [orderOf_spec]
+  rfl
+
+end Listeners
 
 end Clikit.Props.C04
